@@ -54,4 +54,32 @@ def flatten : BTok → List Lx
 
 def flat (T : Tape) : List Lx := T.flatMap flatten
 
+
+/-- why an input lexeme is not on the tape -/
+inductive DropKind where
+  /-- the `=` after a key (`KeyValueSeparator`/`OpenSecond`, or the `=` that triggers the only_empties rewrite) -/
+  | eqAfterKey
+  /-- a ghost `{}` in key position -/
+  | ghost
+  /-- one of the empty `{}` containers discarded by the only_empties rewrite (tape.rs:600-616) -/
+  | emptyRun
+  /-- the odd trailing token `chunks_exact(2)` overlooks in that rewrite -/
+  | oddToken
+  deriving DecidableEq, Repr
+
+/-- what each kind of dropped lexeme can be -/
+def DropOk (p : Lx × DropKind) : Prop :=
+  match p.2 with
+  | .eqAfterKey => p.1 = .equal
+  | .ghost => p.1 = .open_ ∨ p.1 = .close
+  | .emptyRun => p.1 = .open_ ∨ p.1 = .close
+  | .oddToken => True
+
+/-- `InterT A D C`: `C` is an interleaving of the kept lexemes `A` and the dropped (tagged) lexemes `D`,
+both in their original order -/
+inductive InterT : List Lx → List (Lx × DropKind) → List Lx → Prop
+  | nil : InterT [] [] []
+  | left (x : Lx) {A : List Lx} {D : List (Lx × DropKind)} {C : List Lx} : InterT A D C → InterT (x :: A) D (x :: C)
+  | right (p : Lx × DropKind) {A : List Lx} {D : List (Lx × DropKind)} {C : List Lx} : InterT A D C → InterT A (p :: D) (p.1 :: C)
+
 end Jomini.BinTape
